@@ -2,6 +2,7 @@ package sim
 
 import (
 	"fmt"
+	"k8s.io/apimachinery/pkg/api/resource"
 	"math/rand"
 	"runtime"
 	"sort"
@@ -101,7 +102,19 @@ func (e *C17) batch(ctx *core.Ctx, idx int) {
 	var pods []*corev1.Pod
 	for i := 0; i < n; i++ {
 		name := fmt.Sprintf("n%d", i)
-		ni := strategy.NewNodeItem(kit.Node(name, nil), nil)
+		// a third of the nodes are selected by a valid setting, a sixth carry an override annotation:
+		// creation then also writes per-node resources and setting labels (shared-template hazards)
+		var setting *v1.ExtendedDaemonsetSetting
+		node := kit.Node(name, nil)
+		switch i % 6 {
+		case 1, 4:
+			setting = &v1.ExtendedDaemonsetSetting{ObjectMeta: metav1.ObjectMeta{Namespace: "ns", Name: fmt.Sprintf("set-%d", i%2)}}
+			setting.Spec.Containers = []v1.ExtendedDaemonsetSettingContainerSpec{{Name: "main", Resources: corev1.ResourceRequirements{Requests: corev1.ResourceList{corev1.ResourceCPU: resource.MustParse(fmt.Sprintf("%dm", 100+i))}}}}
+			setting.Status.Status = v1.ExtendedDaemonsetSettingStatusValid
+		case 2:
+			node.Annotations = map[string]string{fmt.Sprintf(v1.ExtendedDaemonSetRessourceNodeAnnotationKey, "ns", "foo", "main"): fmt.Sprintf(`{"requests":{"cpu":"%dm"}}`, 200+i)}
+		}
+		ni := strategy.NewNodeItem(node, setting)
 		nodes = append(nodes, ni)
 		if plan.fail(i, n, r) {
 			failNode[name] = true
